@@ -1148,7 +1148,8 @@ class StaleFamily(SubsFamily):
                 tq = round(rng.uniform(5.5, 11.0), 2)
                 if rng.random() < 0.6:
                     k['stall_boost'] = (rng.choice(['fs_tx_hashes_at_blockheight', 'fs_tx_hashes_at_blockheight',
-                                                    'read_headers']), rng.choice([0.4, 0.8]), 'RPCSession',
+                                                    'read_headers']), rng.choice([0.4, 0.8]),
+                                        rng.choice(['RPCSession', 'RPCSession', 'Session']),
                                         rng.choice(['release', 'timed']))
                     k['stall_p'] = 0.0
                 plan.append(dict(op='mine', n=n, ntx=ntx_list(rng, n), seed=rng.getrandbits(32)))
@@ -1168,7 +1169,8 @@ class StaleFamily(SubsFamily):
                 if rng.random() < 0.6:
                     # the reads these requests need are slow, nothing else is: the reorg overtakes them
                     k['stall_boost'] = (rng.choice(['fs_tx_hashes_at_blockheight', 'fs_tx_hashes_at_blockheight',
-                                                    'read_headers']), rng.choice([0.4, 0.8]), 'RPCSession',
+                                                    'read_headers']), rng.choice([0.4, 0.8]),
+                                        rng.choice(['RPCSession', 'RPCSession', 'Session']),
                                         rng.choice(['release', 'timed']))
                     k['stall_p'] = 0.0
                 plan.append(dict(op='fork', depth=d, extra=rng.choice([0, 1, 1, 2]), ntx=ntx_list(rng, d + 2),
